@@ -57,6 +57,50 @@ CLAIMS["C13"] = {
   "note": "Not covered: completed / per-user / incomplete connection limits (bus_connection_complete drags in login-info string building and the listener watch machinery), "
           "<limit> parsing. Counters are symbolic, so the induction covers histories of any length for the covered limits.",
 }
+CLAIMS["C03"] = {
+  "text": "Path-complete bounded check of the real bus_dispatch / bus_dispatch_matches / send_one_message with every callee an outcome stub and a ghost event trace: on every "
+          "path, stripping of unknown header fields, clearing of the container-instance field and stamping of the sender (the connection's own unique name, or the not-active "
+          "placeholder) succeed before any capture / policy / driver / activation / send action, and their failure routes nothing. Unique-name minting "
+          "(create_unique_client_name): two consecutive mints from any reachable 32-bit counter state are strictly increasing, so names are never reused; Hello "
+          "(bus_driver_handle_hello) names a connection exactly once and refuses a second Hello.",
+  "note": "The byte-level effect of the header edits is C12's subject and is not covered. Counters: the last two majors of the 2^62 name space are outside (the code aborts there by design). "
+          "Driver-originated sender (org.freedesktop.DBus) is asserted in the C09 expire harness, which is not decided, so it is not claimed here.",
+}
+CLAIMS["C05"] = {
+  "text": "Same path-complete dispatch check, read for unicast: the addressed recipient handed to capture, policy and matchmaker is the current primary owner of the destination; the owner "
+          "is sent the message at most once and only after the policy allowed it (and only with fds if it can take them); a refused unicast is delivered to nobody, eavesdroppers "
+          "included, and earns an error; a name without owner and without auto-start yields NameHasNoOwner and no delivery; exactly one error emission; the transaction is executed "
+          "xor cancelled exactly once.",
+  "note": "One bus_dispatch invocation; ordering between messages relies on each invocation running to completion (argument, not explored). FIFO inside a transaction and "
+          "'body and header intact' are not covered.",
+}
+CLAIMS["C08"] = {
+  "text": "One-step induction on the real server-side handlers of dbus-auth.c (state handlers, handle_auth, process_data, EXTERNAL and ANONYMOUS mechanism functions, send_ok, "
+          "send_rejected, shutdown_mech) from any state satisfying the stated invariant, for every command: AUTHENTICATED only via BEGIN after OK; OK only when EXTERNAL found the "
+          "requested identity inside the socket credentials or ANONYMOUS is allowed; REJECTED forgets the identity and counts a failure, max_failures disconnects; BEGIN elsewhere "
+          "disconnects; responses follow the specification's server state table; fd passing agreed only after OK.",
+  "note": "DBusString / DBusCredentials are ghost-modelled; DBUS_COOKIE_SHA1, the line splitter, the 16 KiB buffering bound and the transport-side gate are outside the claim.",
+}
+CLAIMS["C14"] = {
+  "text": "Fault schedule as a solver variable: inside one real RequestName / ReleaseName / disconnect step of bus/services.c (queue length 0..3) the k-th allocation (mempool, list "
+          "node, hook data, hash entry, owned-service link) or the j-th driver signal send fails, k and j unconstrained. On failure the error is NoMemory; after the recorded "
+          "cancel hooks run newest-first the owner queue, flags, counters, connection references and the allocation balance equal the snapshot; a retry succeeds with the reference result.",
+  "note": "Single faults only. Library-side message building/copying/editing, match-rule and configuration parsing, Hello, AddMatch and routed messages under OOM are not covered "
+          "(except: dispatch skeleton shows NoMemory => cancel, never execute).",
+}
+CLAIMS["C18"] = {
+  "text": "Placement part only, from the path-complete dispatch check: monitors are offered every routed message (bus_transaction_capture) after the sender was stamped and before the "
+          "policy gate can refuse it; nothing is delivered or handled without having been offered to monitors; refused broadcasts are captured as error replies; a monitor that "
+          "sends anything is disconnected and none of its message is routed.",
+  "note": "bus_transaction_capture itself, bus_connection_be_monitor and the 'as if the monitor were absent' half are not covered.",
+}
+CLAIMS["C20"] = {
+  "text": "The real dbus-object-tree.c driven through its real register / unregister / dispatch API by 12 scripted histories (symbolic fallback flags) and a call to each of 9 paths "
+          "with symbolic handler answers: handlers are offered the call exact-path first, then fallbacks of successively shorter ancestors, stopping at the first HANDLED; occupied "
+          "registrations fail and change nothing; the node set equals registered paths plus ancestors (no ghost children); get_object_path_data agrees.",
+  "note": "Known finding F6: found_object (UnknownMethod vs UnknownObject) is derived from handler-less fallback flags; tolerated only for paths not covered by any registration. "
+          "One-byte path elements, <=4 children per node, scripted (not arbitrary) histories.",
+}
 NOT_APPLICABLE = {f"C{n:02d}": PENDING for n in range(1, 21)}
 NOTES = ("All checks are solver-based (CBMC) over the real sources; see DESIGN.md. Exit 0 = all obligations UNSAT inside the stated bounds; "
          "exit 1 = counterexample (VIOLATION line when the native replay reproduces it); exit 2 = check broken on this tree.")
